@@ -6,7 +6,7 @@ output is re-parsed by expat and compared on names, attributes, order and text.
 """
 from lxml import etree
 
-from vlib import emlkit, snapshot, xmlgen
+from vlib import emlkit, snapshot, treegen, xmlgen
 from vlib.emlkit import Node
 from metapype.eml import export
 from metapype.model import metapype_io
@@ -24,7 +24,7 @@ ASSUMPTIONS = [
     "EML exporter: qualified attributes, prefixes and namespace maps are not part of its contract (it predates them); the "
     "boilerplate attributes it adds to an eml root are ignored",
 ]
-REQUIRED = ["fragment_exports", "general_exports", "eml_exports", "expat_accepts", "libxml2_accepts", "reimports", "special:<:content", "special:&:content",
+REQUIRED = ["exported_again_after_in_place_edits", "fragment_exports", "general_exports", "eml_exports", "expat_accepts", "libxml2_accepts", "reimports", "special:<:content", "special:&:content",
             "special:\":attribute", "special:<:attribute", "special:&:attribute", "special:&:extras", "special:<:tail", "special:&:uri",
             "trees_with_nested_declarations"]
 EXHAUSTIVE = {"quick": False, "thorough": False}
@@ -142,8 +142,8 @@ def norm(s):
     return (s or "").strip()
 
 
-def judge_general(ctx, root):
-    wit = lambda: {"tree": snapshot.to_plain(root), "exporter": "metapype_io.to_xml"}
+def judge_general(ctx, root, history=None):
+    wit = lambda: dict(history or {}, tree=snapshot.to_plain(root), exporter="metapype_io.to_xml")
     try:
         out = metapype_io.to_xml(root)
     except Exception as e:
@@ -197,8 +197,8 @@ def judge_fragments(ctx, root):
                     emlkit.discard(sub_root)
 
 
-def judge_eml(ctx, root):
-    wit = lambda: {"tree": snapshot.to_plain(root), "exporter": "export.to_xml"}
+def judge_eml(ctx, root, history=None):
+    wit = lambda: dict(history or {}, tree=snapshot.to_plain(root), exporter="export.to_xml")
     try:
         out = export.to_xml(root)
     except Exception as e:
@@ -251,6 +251,15 @@ def run(ctx, params):
             ctx.case(judge_general, ctx, root)
             if i % 3 == 0:
                 ctx.case(judge_fragments, ctx, root)
+        if i % 4 == 0:
+            # the same objects exported again after an editor changed them in place (attribute values, content, children)
+            hist = {"before": snapshot.to_plain(root)}
+            hist["edits"] = treegen.edit_in_place(rng, root, text_xor_children=for_eml)   # (the EML exporter's precondition is kept)
+            if hist["edits"]:
+                ctx.count("exported_again_after_in_place_edits")
+                if for_eml:
+                    ctx.case(judge_eml, ctx, root, hist)
+                ctx.case(judge_general, ctx, root, hist)
         if any(v and any(ch in v for ch in "<>&\"") for n in snapshot.walk(root) for v in [n.content, n.tail] + list(n.attributes.values()) + list(n.extras.values())):
             ctx.distinct(snapshot.value(root))
         if i % 13 == 0:
@@ -263,6 +272,14 @@ def run(ctx, params):
 
 
 def replay(ctx, witness):
+    if "before" in witness:
+        root = snapshot.from_plain(Node, witness["before"])
+        for phase in range(2):
+            judge_eml(ctx, root) if witness["exporter"] == "export.to_xml" else judge_general(ctx, root)
+            treegen.apply_edits(root, witness["edits"])
+        ctx.distinct(1)
+        ctx.distinct(2)
+        return
     root = snapshot.from_plain(Node, witness["tree"])
     if witness["exporter"] == "export.to_xml":
         judge_eml(ctx, root)
